@@ -818,6 +818,7 @@ def run_render_method(model, cfg, func, token_cls, facts, extra_hooks=None, max_
             return PathOut(None, truncated=True, interp=it)
         finally:
             it.renderer = renderer
+            it.token_loaded = set(tok.loaded)     # attributes of the token read on this path (helpers included)
     for trace, po in enumerate_paths(run, max_paths):
         po.trace = trace
         outs.append(po)
